@@ -150,6 +150,10 @@ def main(pid, explorer, deps_gen=(), extra_vo=(), assumptions=(), not_modelled='
     # a translator that fails leaves a generated file that does not compile: exactly the obligations (and, through
     # Extract.v, the executable model) that depend on it break below; its message is attached to those reports
     tr_errs = ['translator %s: %s' % (name, err) for name, err in tr.items() if err]
+    for name, err in tr.items():
+        if err and vlib.coq_depends('Properties_%s' % pid, name[:-2]):
+            proof_broken.append('translator %s can no longer read the source (%s): the theorems of Properties_%s.v are about the '
+                                'last translatable version, not about the code' % (name, err, pid))
     theorems = properties_info(pid)
     ok, out = vlib.coq_make(['Properties_%s.vo' % pid] + list(extra_vo))
     make_log = out
